@@ -122,12 +122,12 @@ func (s *Server) setSettings(settings serverSettings) {
 	s.settingsMu.Lock()
 	oldSettings := s.settings
 	s.settings = settings
+	if oldSettings.CLI.Path != settings.CLI.Path || oldSettings.CLI.Timeout != settings.CLI.Timeout {
+		s.reinitCLI(settings.CLI)
+	}
 	s.settingsMu.Unlock()
 	if s.loader != nil {
 		s.loader.SetLimits(settings.Limits)
-	}
-	if oldSettings.CLI.Path != settings.CLI.Path || oldSettings.CLI.Timeout != settings.CLI.Timeout {
-		s.reinitCLI(settings.CLI)
 	}
 }
 
